@@ -10,6 +10,7 @@ From SF Require Import Unsized.Proofs.EncodeParse Unsized.Proofs.Mem Unsized.Pro
   Unsized.Proofs.Pos Unsized.Proofs.FocusOps Unsized.Proofs.NotifyInside Unsized.Proofs.Resize Unsized.Proofs.GenOps
   Unsized.Proofs.GenOps2 Unsized.Proofs.Init Unsized.Proofs.UInsert Unsized.Proofs.URemove Unsized.Proofs.History
   Unsized.Proofs.History2 Unsized.Proofs.NotifyInside2 Unsized.Proofs.SetData Unsized.Proofs.Keyed.
+From SF Require Import Unsized.Proofs.EnumFacts.
 
 Arguments Z.add : simpl never.
 Arguments Z.sub : simpl never.
@@ -128,13 +129,16 @@ Lemma plug_app_intro : forall p r t v tc vc x, resolve t v p = Some (tc, vc) ->
 Proof.
   induction p as [|st p IH]; intros r t v tc vc x H.
   - cbn [resolve] in H. injection H as -> ->. reflexivity.
-  - cbn [app]. destruct st as [i|i]; cbn [resolve] in H.
+  - cbn [app]. destruct st as [i|i|]; cbn [resolve] in H.
     + destruct t as [| | | |ts|]; try discriminate. destruct v as [| | |vs|]; try discriminate.
       destruct (nth_error ts i) as [ti|] eqn:Et; [|discriminate]. destruct (nth_error vs i) as [vi|] eqn:Ev; [|discriminate].
       cbn [plug]. rewrite Et, Ev. f_equal. f_equal. now apply IH.
     + destruct t as [| | |it k| |]; try discriminate. destruct v as [| |items| |]; try discriminate.
       destruct (nth_error items i) as [kv|] eqn:En; [|discriminate].
       cbn [plug]. rewrite En. f_equal. f_equal. f_equal. now apply IH.
+    + destruct t as [| | | | |rw vars]; try discriminate. destruct v as [| | | |d pv]; try discriminate.
+      destruct (find_variant d vars) as [vt|] eqn:Ef; [|discriminate].
+      cbn [plug]. rewrite Ef. f_equal. now apply IH.
 Qed.
 
 (* replacing the container inside a wrapper leaves a wrapper around the new container *)
